@@ -75,6 +75,30 @@ func (u *Unit) specTermCtx(c Clause, env *Env, sc *specCtx) Term {
 }
 
 func (u *Unit) lookupName(name string, env *Env, sc *specCtx) (Value, bool) {
+	if v, ok := u.lookupName1(name, env, sc); ok {
+		return v, true
+	}
+	// the name may be the recorded (older) name of a variable that was renamed since the contract was written
+	var fis []*FuncInfo
+	if sc.fi != nil {
+		fis = append(fis, sc.fi)
+	}
+	for i := len(u.curFn) - 1; i >= 0; i-- {
+		fis = append(fis, u.curFn[i])
+	}
+	fis = append(fis, u.FI)
+	for _, fi := range fis {
+		if alt, ok := u.Prog.renames(fi)[name]; ok && alt != name {
+			if v, ok := u.lookupName1(alt, env, sc); ok {
+				u.note(fmt.Sprintf("contract name %q read as %q (the variable at that position was renamed)", name, alt))
+				return v, true
+			}
+		}
+	}
+	return Value{}, false
+}
+
+func (u *Unit) lookupName1(name string, env *Env, sc *specCtx) (Value, bool) {
 	if sc.bound != nil {
 		if v, ok := sc.bound[name]; ok {
 			return v, true
@@ -714,6 +738,13 @@ func (u *Unit) specCall(x *ast.CallExpr, env *Env, sc *specCtx) Value {
 	case "rkind":
 		v := u.sv(x.Args[0], env, sc)
 		return Value{u.rkind(v.Term), intT}
+	case "rfield":
+		v := u.sv(x.Args[0], env, sc)
+		n := u.sv(x.Args[1], env, sc)
+		return Value{u.rfield(u.specBox(v, env).Term, n.Term), types.NewInterfaceType(nil, nil)}
+	case "rindirect":
+		v := u.specBox(u.sv(x.Args[0], env, sc), env)
+		return Value{Ite(Same(u.rkind(v.Term), IntLit(kPtr)), u.relem(env, v.Term), v.Term), types.NewInterfaceType(nil, nil)}
 	case "rtype":
 		v := u.sv(x.Args[0], env, sc)
 		return Value{u.rtype(v.Term), intT}
@@ -945,6 +976,13 @@ func (u *Unit) specCall(x *ast.CallExpr, env *Env, sc *specCtx) Value {
 		return u.specBox(v, env)
 	case "held":
 		key := strings.Join(strings.Fields(nodeString(token.NewFileSet(), x.Args[0])), " ")
+		if se, ok := x.Args[0].(*ast.SelectorExpr); ok {
+			if id, ok := se.X.(*ast.Ident); ok {
+				if v, ok := u.lookupName(id.Name, env, sc); ok && v.Term.Sort == SRef {
+					key = "@" + v.Term.S + "." + se.Sel.Name
+				}
+			}
+		}
 		mode := strings.Trim(nodeString(token.NewFileSet(), x.Args[1]), "\"")
 		return Value{boolTerm(env.held[key] == mode), boolT}
 	case "_ki", "_visited", "_keyat":
